@@ -138,3 +138,38 @@ theorem decode_suffix (e : Endian) (enc : Encoding) (b : UInt8) (tl : Bytes) (op
     have hr : r = rest := by cases h3; rfl
     rw [← hr]
     exact readOperands_suf e enc sig tl args r h1
+
+/-! ## `OperationIter` -/
+
+theorem iterNext_after_error (e : Endian) (enc : Encoding) (input : Bytes) (x : Err)
+    (h : (iterNext e enc input).1 = .err x) :
+    (iterNext e enc input).2 = [] ∧ (iterNext e enc (iterNext e enc input).2).1 = .ok none := by
+  unfold iterNext at h ⊢
+  cases input with
+  | nil => simp at h
+  | cons b tl =>
+    simp only [] at h ⊢
+    cases hp : parse e enc (b :: tl) with
+    | ok p => rw [hp] at h; simp at h
+    | err er => exact ⟨rfl, rfl⟩
+    | panic w => rw [hp] at h; simp at h
+    | diverge => rw [hp] at h; simp at h
+
+theorem iterNext_progress (e : Endian) (enc : Encoding) (input : Bytes) (op : Operation)
+    (h : (iterNext e enc input).1 = .ok (some op)) :
+    (iterNext e enc input).2.length < input.length := by
+  unfold iterNext at h ⊢
+  cases input with
+  | nil => simp at h
+  | cons b tl =>
+    simp only [] at h ⊢
+    cases hp : parse e enc (b :: tl) with
+    | ok p =>
+      obtain ⟨op', rest⟩ := p
+      simp only []
+      rw [parse_eq_decode] at hp
+      have := (decode_suffix e enc b tl op' rest hp).length_le
+      simp only [List.length_cons]; omega
+    | err er => rw [hp] at h; simp at h
+    | panic w => rw [hp] at h; simp at h
+    | diverge => rw [hp] at h; simp at h
